@@ -2675,6 +2675,11 @@ bool BW_MidiSequencer::parseCMF(FileAndMemReader &fr)
     fr.seeku(mus_start, FileAndMemReader::SET);
     trackCount = 1;
     deltaTicks = (size_t)ticks;
+    if(deltaTicks == 0)
+    {
+        m_errorString = fr.fileName() + ": Invalid format, zero ticks per quarter note!\n";
+        return false;
+    }
 
     rawTrackData.clear();
     rawTrackData.resize(trackCount, std::vector<uint8_t>());
@@ -2821,6 +2826,12 @@ bool BW_MidiSequencer::parseSMF(FileAndMemReader &fr)
 
     if(smfFormat > 2)
         smfFormat = 1;
+
+    if(deltaTicks == 0)
+    {
+        m_errorString = fr.fileName() + ": Invalid format, zero time division!\n";
+        return false;
+    }
 
     rawTrackData.clear();
     rawTrackData.resize(TrackCount, std::vector<uint8_t>());
